@@ -12,7 +12,7 @@ RECURSIVE Before(_)
 Before(i) == IF Trace[i].first THEN Store0 ELSE ApplyReal(Before(i - 1), Trace[i - 1])
 G == Before(l - 1)
 R == Apply(G, Ev.o)
-Modelled == Ev.o.op \in {"setprefix", "setsession", "setlang", "setlock", "put", "get"}
+Modelled == Ev.o.op \in {"setprefix", "setsession", "setlang", "setctxlang", "setlock", "put", "get"}
 
 \* ---- C10: every backend is the same keyed map
 C10_NoPanic == IsKv => Ev.panic = ""
@@ -20,7 +20,8 @@ C10_Result  == IsKv /\ Modelled /\ Ev.panic = "" => R.res = Ev.res /\ (Ev.o.op =
 \* listing (filesystem): exactly the stored keys of the current type and session with that prefix, once each, with their values
 Mine == {k \in DOMAIN G.m : k[1] = G.h.pfx /\ k[2] = (IF Sessioned(G.h.pfx) THEN G.h.sid ELSE "") /\ k[4] = ""}
 Listed == {<<Ev.list[i].k, Ev.list[i].v>> : i \in DOMAIN Ev.list}
-C10_DumpOnce == IsKv /\ Ev.o.op = "dump" /\ Ev.res = "ok" => Cardinality(Listed) = Len(Ev.list) /\ Cardinality({Ev.list[i].k : i \in DOMAIN Ev.list}) = Len(Ev.list)
+\* (listings of the translatable types mix default and translated entries under one decoded key: not specified by C10)
+C10_DumpOnce == IsKv /\ Ev.o.op = "dump" /\ Ev.res = "ok" /\ ~Translatable(G.h.pfx) => Cardinality(Listed) = Len(Ev.list) /\ Cardinality({Ev.list[i].k : i \in DOMAIN Ev.list}) = Len(Ev.list)
 \* (with no session selected the sessioned types have no namespace of their own: judged by C11, not here)
 NoNs == Sessioned(G.h.pfx) /\ G.h.sid = ""
 C10_DumpSound == IsKv /\ Ev.o.op = "dump" /\ Ev.res = "ok" /\ ~Translatable(G.h.pfx) /\ ~NoNs => \A p \in Listed : \E k \in Mine : k[3] = p[1] /\ G.m[k] = p[2]
